@@ -61,11 +61,13 @@ ASSUMPTIONS = [
     "not judged: that permitted requests are served (only counted), search result completeness (C07/C14), attributes",
 ]
 MIN_OBS = {
-    'quick': {'requests_judged': 250, 'search_replies_judged': 120, 'shares_replies_judged': 100, 'reeval_checks': 250,
-              'changes_applied': 450, 'uploads_created_permitted': 150, 'reeval_uploads_unfinished': 150},
-    'thorough': {'requests_judged': 10000, 'search_replies_judged': 5000, 'shares_replies_judged': 4000,
-                 'reeval_checks': 10000, 'changes_applied': 18000, 'uploads_created_permitted': 6000,
-                 'reeval_uploads_unfinished': 6000},
+    'quick': {'requests_judged': 260, 'search_replies_judged': 160, 'shares_replies_judged': 90, 'reeval_checks': 480,
+              'changes_applied': 540, 'uploads_created_permitted': 210, 'reeval_uploads_unfinished': 430,
+              'reeval_requeue_expected': 95, 'reeval_user_aborted_checked': 40, 'phrase_checks': 550},
+    'thorough': {'requests_judged': 10400, 'search_replies_judged': 6400, 'shares_replies_judged': 3600,
+                 'reeval_checks': 19200, 'changes_applied': 21600, 'uploads_created_permitted': 8400,
+                 'reeval_uploads_unfinished': 17200, 'reeval_requeue_expected': 3800,
+                 'reeval_user_aborted_checked': 1600, 'phrase_checks': 22000},
 }
 SHARD_TIMEOUT = {'quick': 600, 'thorough': 5400}
 SIZES = {'quick': 300, 'thorough': 12000}
@@ -330,7 +332,14 @@ def gen_plan(rng: random.Random, n: int) -> dict:
             add({'k': 'pause', 'i': 0})
         elif state == 'ABORTED-user':
             add({'k': 'abort', 'i': 0})
-        add(_forbid(rng, g, u, k))
+            if rng.random() < 0.5:
+                add(_rand_change(rng, g))       # a change that (mostly) leaves the upload permitted
+        c1 = _forbid(rng, g, u, k)
+        if state == 'QUEUED' and rng.random() < 0.4:
+            # the slot limit is raised in the same instant: the queued upload may start before the
+            # library has noticed the change (user-management poll)
+            c1['then_slots'] = 2
+        add(c1)
         r = rng.random()
         if r < 0.3:
             add(_request(rng, g, u, k, j, 'exact'))
@@ -553,6 +562,7 @@ def run_case(params: dict) -> dict:
         # -- transfers started while not permitted ---------------------------------------------------------
         starts: list = []
         clock = {'last_change': -1000.0}
+        user_aborted: dict = {}            # id(upload) -> upload: aborted through the API by the harness
 
         def on_edge(transfer, old, new):
             if not transfer.is_upload() or new != 'INITIALIZING':
@@ -608,6 +618,10 @@ def run_case(params: dict) -> dict:
             kind = 'queue' if st['k'] == 'queue' else 'transfer-request'
             mark_f, mark_a = len(peers[u].all_frames), len(added)
             existing = [t.state.VALUE.name for t in uploads() if t.username == u and t.remote_path == path]
+            for t in uploads():
+                # a fresh PERMITTED request of the downloader is outside 'stays aborted after a configuration change'
+                if perm and t.username == u and t.remote_path == path:
+                    user_aborted.pop(id(t), None)
             tk = next_ticket()
             try:
                 if kind == 'queue':
@@ -828,6 +842,11 @@ def run_case(params: dict) -> dict:
                 model.scan_all()
                 self_check('after add + rescan')
             clock['last_change'] = w.now
+            if st.get('then_slots') is not None:
+                settings.transfers.limits.upload_slots = st['then_slots']
+                for u_ in tracked_users():
+                    w.server.push('up', GetUserStatus.Response(u_, 2, False))
+                add('changes_racing_a_free_slot')
             add('changes_applied')
             cov('change_kinds', ck.split(':')[0])
             trace.append((round(w.now, 3), 'change', ck, {k_: v for k_, v in st.items() if k_ != 'k'},
@@ -858,7 +877,8 @@ def run_case(params: dict) -> dict:
                         'blocked_for_uploads': up_blocked}
                 cov('reeval_outcomes', f"{s_before}->{state}{'(' + str(reason) + ')' if state == 'ABORTED' else ''}:"
                                        f"{'permitted' if perm else why}")
-                if b == ('ABORTED', 'Requested'):
+                if id(t) in user_aborted or b == ('ABORTED', 'Requested'):
+                    # remembered by the harness: the library's own bookkeeping of the reason is not trusted
                     add('reeval_user_aborted_checked')
                     if state != 'ABORTED':
                         violate('reeval:user-abort-undone', **info)
@@ -892,6 +912,8 @@ def run_case(params: dict) -> dict:
             try:
                 await up.call(mgr.abort(t) if st['k'] == 'abort' else mgr.pause(t))
                 add('user_actions')
+                if st['k'] == 'abort':
+                    user_aborted[id(t)] = t
             except InvalidStateTransition:
                 add('user_actions_refused')
             trace.append((round(w.now, 3), st['k'], t.username, s0, '->', t.state.VALUE.name, t.abort_reason))
